@@ -332,6 +332,60 @@ def save_read_args(report):
         report.notes.append('save/read argument contracts are part of the C13 harness (not available)')
         return
     c13.argument_contracts(report)
+    # read_data on Einstein Toolkit directories (cache block, tensor names, both layouts): the caller's vars / it lists
+    # (shared with C12: two histories per layout, symbolic iterations, every path)
+    from . import c12
+    cfgs = c12.history_configs('quick')
+    pick = []
+    for lay in ('grouped', 'ungrouped'):
+        pick += [i for i, (layout, calls) in enumerate(cfgs) if layout == lay and len(calls) == 2 and any('gammadown3' in v for v, *_ in calls)][:2]
+    for i in pick:
+        r = c12.run_history((i, 'quick'))
+        mine = [b for b in r['bad'] if any("caller's" in p_ for p_ in b['problems'])]
+        verdict = 'unknown' if r['inconclusive'] else ('sat' if mine else 'unsat')
+        report.record('read_data leaves vars / it untouched: ' + r['name'], verdict, r['seconds'], backend='z3py-inproc', sha=f"{r['paths']}p{r['queries']}q:{i}",
+                      group='read_data (Einstein Toolkit, cached) leaves its argument lists untouched (symbolic iterations)')
+        solver.STATS.queries += r['queries']
+        solver.STATS.seconds += r.get('solver_seconds', 0.0)
+        if r['inconclusive']:
+            report.inconc(r['name'], r['inconclusive'])
+        for b in mine[:1]:
+            rp = c12.replay_concrete('quick', i, b['model'])
+            hit = [p_ for p_ in rp['problems'] if "caller's" in p_]
+            if hit:
+                report.violation("read_data:caller's lists", f"{r['name']}: {hit[0]}", report.write_replay('read_data_args', dict(history=r['name'], idx=i, model=b['model'], replay=rp)))
+            else:
+                report.harness_errors.append(f"{r['name']}: symbolic path reports a modified argument list but the h5py replay does not: {rp}")
+
+
+def interpolate_args(report):
+    """numerical.interpolate (public, and what Psi4_lm hands views of the cached Psi4 to) leaves the sampled array untouched - for
+    finite samples and for samples containing NaN / inf (concrete executions on read-only arrays; a write raises)"""
+    from aurel import numerical
+    g = (np.linspace(0, 1, 4), np.linspace(0, 1, 4), np.linspace(0, 1, 4))
+    pts = (np.array([0.3, 0.6]), np.array([0.2, 0.9]), np.array([0.5, 0.1]))
+    bad = []
+    for kind, poke in (('finite', None), ('NaN at a node', np.nan), ('inf at a node', np.inf)):
+        val = np.arange(64, dtype=float).reshape(4, 4, 4)
+        if poke is not None:
+            val[1, 2, 3] = poke
+        snap = val.copy()
+        val.setflags(write=False)
+        for method in ('linear', 'nearest'):
+            try:
+                with np.errstate(all='ignore'):
+                    numerical.interpolate(val, g, pts, method=method)
+            except ValueError as e:
+                if 'read-only' in str(e):
+                    bad.append(f'{kind}, method={method}: interpolate writes into the array it samples ({e})')
+            except Exception:  # noqa  (NaN handling of scipy is not the subject)
+                pass
+        if not np.array_equal(val, snap, equal_nan=True):
+            bad.append(f'{kind}: sampled array changed')
+    report.record('numerical.interpolate leaves the sampled array untouched (finite, NaN, inf samples)', 'holds' if not bad else 'sat',
+                  group='interpolate arguments (concrete executions)', kind='concrete', trivial=True)
+    if bad:
+        report.violation('interpolate:argument', bad[0], report.write_replay('interpolate_args', dict(problems=bad)))
 
 
 def main(report, tier, seed, workers, calibrate=False):
@@ -397,6 +451,7 @@ def main(report, tier, seed, workers, calibrate=False):
                    'comparison of every array handed out so far, plus distinct solver scripts')
     over_time_args(report)
     save_read_args(report)
+    interpolate_args(report)
 
 
 def replay_payload(payload):
